@@ -13,6 +13,7 @@ mod goscope;
 mod c13;
 mod c16;
 mod c18;
+mod c14;
 mod probe;
 mod rng;
 mod sexp;
@@ -37,6 +38,7 @@ fn main() {
         "c13" => c13::main(&args),
         "c16" => c16::main(&args),
         "c18" => c18::main(&args),
+        "c14" => c14::main(&args),
         "probe" => probe::main(&args),
         other => {
             eprintln!("unknown subcommand {}", other);
